@@ -151,3 +151,47 @@ func init() {
 		}
 	}
 }
+
+func init() {
+	extraDumps["effects"] = func(t *Tree, name string) {
+		var fns map[*ssa.Function]bool
+		switch name {
+		case "run":
+			fns = runScope(t)
+		case "check":
+			fns = checkScope(t)
+		case "parse":
+			fns, _ = parseScope(t)
+		case "v2":
+			fns, _ = v2Scope(t)
+		}
+		var list []*ssa.Function
+		for f := range fns {
+			list = append(list, f)
+		}
+		sortFuncs(list)
+		for _, f := range list {
+			for _, w := range writesOf(f) {
+				rk := rootKind(w.Root)
+				if rk == "local" || (rk == "new" && len(w.Through) == 0) {
+					continue
+				}
+				fmt.Printf("%-50s %-9s %-40s root=%-22s through=%v\n", relName(f), w.Kind, path(w.Addr), rk, w.Through)
+			}
+		}
+	}
+}
+
+func init() {
+	extraDumps["globals"] = func(t *Tree, name string) {
+		for _, pp := range sortedKeys(t.SSA) {
+			for _, f := range t.PkgFuncs(pp) {
+				for _, w := range writesOf(f) {
+					if g, ok := w.Root.(*ssa.Global); ok {
+						fmt.Printf("%-60s %-9s %s.%s  %s\n", relName(f), w.Kind, g.Pkg.Pkg.Name(), g.Name(), t.Pos(w.In.Pos()))
+					}
+				}
+			}
+		}
+	}
+}
